@@ -1,16 +1,16 @@
 #!/bin/sh
-# tools/mutant.sh <patch> <ID> [tier] : apply a patch to /repo, run one check, undo the patch.
-# Development aid (sensitivity of the checks); never leaves /repo modified.
+# tools/mutant.sh <patch> <ID> [tier] : sensitivity aid. Applies a patch to a scratch worktree of
+# /repo under /tmp (never to /repo itself), runs one check against it (VERIF_REPO), removes it.
 patch="$(readlink -f "$1")"; id="$2"; tier="${3:-quick}"
-cd /repo || exit 2
-if ! git diff --quiet; then echo "repo dirty"; exit 2; fi
-if ! git apply --check "$patch" 2>/dev/null; then
-  if patch -p1 --dry-run -s < "$patch" >/dev/null 2>&1; then mode=patch; else echo "PATCH-DOES-NOT-APPLY $patch"; exit 3; fi
-else mode=git; fi
-if [ $mode = git ]; then git apply "$patch"; else patch -p1 -s < "$patch"; fi
+wt="/tmp/mut_$$"
+git -C /repo worktree add --detach "$wt" HEAD -q >/dev/null 2>&1 || { echo "cannot create worktree"; exit 2; }
+cd "$wt" || exit 2
+if git apply --check "$patch" 2>/dev/null; then git apply "$patch";
+elif patch -p1 --dry-run -s < "$patch" >/dev/null 2>&1; then patch -p1 -s < "$patch";
+else echo "PATCH-DOES-NOT-APPLY $patch"; cd /; git -C /repo worktree remove --force "$wt"; exit 3; fi
 cd /verif
-VERIF_NO_EVIDENCE=1 ./check "$id" --tier "$tier" > /tmp/mutant_$$.log 2>&1; rc=$?
-cd /repo && git checkout -q -- . && git clean -fdq -e '*.orig' >/dev/null 2>&1; find /repo -name '*.orig' -delete 2>/dev/null
-echo "$(basename $patch) $id rc=$rc $(grep -c '^VIOLATION' /tmp/mutant_$$.log) violations; $(grep -m1 'signature=' /tmp/mutant_$$.log | cut -c1-160)"
-rm -f /tmp/mutant_$$.log
+VERIF_REPO="$wt" VERIF_NO_EVIDENCE=1 ./check "$id" --tier "$tier" > "$wt.log" 2>&1; rc=$?
+echo "$(basename "$(dirname "$patch")")/$(basename "$patch") $id rc=$rc $(grep -c '^VIOLATION' "$wt.log") violations; $(grep -m1 'signature=' "$wt.log" | cut -c1-170)"
+[ "$rc" = 2 ] && tail -3 "$wt.log"
+rm -f "$wt.log"; git -C /repo worktree remove --force "$wt"
 exit 0
